@@ -300,3 +300,27 @@ def mod_push_pop(work, V):
     parsed = sum(1 for g in got if isinstance(g, list) and g[3])
     return [{'module': 'ModPushPop', 'cfg': 'MC_ModPushPop.cfg', 'distinct_states': ok['distinct'], 'violation': ok['violation'], 'entities_parsed_by_code': parsed, 'of': len(keys), 'drift': drift},
             {'module': 'ModPushPop', 'cfg': 'MC_ModPushPop_noreset.cfg (around flag not cleared in the since block)', 'distinct_states': bad['distinct'], 'violation': bad['violation'], 'expected_violation': 'Restored'}]
+
+
+def drop_zeros(work, V, tier='thorough'):
+    """DropZeros.tla: drop_leading_zeros keeps separators and group values and writes no leading zero, for every string of
+    up to six characters over {0,1,a,A,.,:}; every string of up to five characters is evaluated by the real function."""
+    ok = {'ok': True, 'distinct': 0, 'violation': None} if tier == 'quick' else tlc.run(work, 'DropZeros', cfg='MC_DropZeros.cfg', timeout=1800)
+    b = tlc.run(work, 'DropZeros', cfg='MC_DropZeros_bind.cfg', dump=True, timeout=900)
+    for r, name in ((ok, 'MC_DropZeros'), (b, 'MC_DropZeros_bind')):
+        if not r['ok']:
+            V.note('mechanism-drift: DropZeros/%s violates %s' % (name, r['violation']))
+    finals = {}
+    for st in tlc.read_dump(b['dump'], where='pc = "done"'):
+        finals[st['text']] = st['result']
+    keys = sorted(finals)
+    obs = pool.run_cases([{'api': 'dropzeros', 'texts': keys}], init_name='sequence', batch=1, timeout=120.0)
+    got = obs[0].get('out') or []
+    drift = 0
+    for k, g in zip(keys, got + [None] * (len(keys) - len(got))):
+        if g != finals[k]:
+            drift += 1
+            if drift <= 3:
+                V.note('mechanism-drift: drop_leading_zeros(%r): model %r, code %r' % (k, finals[k], g))
+    out = [] if tier == 'quick' else [{'module': 'DropZeros', 'cfg': 'MC_DropZeros.cfg', 'distinct_states': ok['distinct'], 'violation': ok['violation']}]
+    return out + [{'module': 'DropZeros', 'cfg': 'MC_DropZeros_bind.cfg', 'distinct_states': b['distinct'], 'violation': b['violation'], 'strings_evaluated_by_code': len(keys), 'drift': drift}]
